@@ -208,6 +208,13 @@ def family_alias(rnd, tier):
     out.append(SC("alias-dir-T", d + [E("ld", "link", "dd")], ["dd"], "ld", T=True, cls="alias"))
     out.append(SC("alias-dir-abs", d, ["dd"], "/ABS", cls="alias"))
     out.append(SC("alias-dir-dotslash-T", d, ["./dd"], "dd", T=True, cls="alias"))
+    # the same with a directory that holds ONLY one kind of entry: whichever entry a driver meets first must be protected by its
+    # own identity test (a sequential dispatcher stops at the first refusal and never reaches the others)
+    for nm, shape in (("fifo", {"p": ("fifo",)}), ("link", {"l": ("link", "nowhere")}), ("chr", {"c": ("chr", 1, 3)}), ("sock", {"so": ("sock",)}),
+                      ("nested-fifo", {"e": {"p": ("fifo",)}})):
+        dd = tree("dd", shape) + [E("by", "file", "F6")]
+        out.append(SC("alias-dironly-%s-parent" % nm, dd, ["dd"], "dd/..", cls="alias"))
+        out.append(SC("alias-dironly-%s-T" % nm, dd + [E("ld", "link", "dd")], ["dd"], "ld", T=True, cls="alias"))
     # source root is a link to a directory (absolute and relative), the case that used to write through the new link
     t = tree("real", {"a": "F1", "sd": {"b": "F2"}}) + [E("d", "dir"), E("by", "file", "F6")]
     out.append(SC("alias-rootlink-abs", t + [E("ln", "link", "/real")], ["/ABS/ln"], "d", cls="alias"))
@@ -222,9 +229,17 @@ def family_alias_random(rnd, count):
     out = []
     kinds = {"dd": "dir", "dd/x": "file", "dd/e": "dir", "dd/e/y": "file", "dd/l": "link", "dd/p": "fifo", "dd/e/ll": "link"}
     for i in range(count):
-        fs = tree("dd", {"x": "F1", "e": {"y": "F2", "z": "F3", "ll": ("link", "../x")}, "l": ("link", "x"), "p": ("fifo",)}) + [E("by", "file", "F6"), E("o", "dir"), E("o/k", "file", "F7")]
         src = rnd.choice(sorted(kinds))
         k = kinds[src]
+        # the tree around the source varies too: each other entry is present or not (a directory holding ONLY a FIFO, only a
+        # link, only files ... - which entry a driver meets first decides which of its identity tests is exercised)
+        full = tree("dd", {"x": "F1", "e": {"y": "F2", "z": "F3", "ll": ("link", "../x")}, "l": ("link", "x"), "p": ("fifo",)})
+        keep_all = rnd.random() < 0.4
+        needed = {tuple(src.split("/")[:j]) for j in range(1, len(src.split("/")) + 1)}
+        kept = [e for e in full if tuple(e["p"]) in needed or keep_all or rnd.random() < 0.4]
+        have = {tuple(e["p"]) for e in kept}
+        kept = [e for e in kept if all(tuple(e["p"][:j]) in have for j in range(1, len(e["p"])))]      # no orphans
+        fs = kept + [E("by", "file", "F6"), E("o", "dir"), E("o/k", "file", "F7")]
         rel = rnd.choice(["self", "parent", "parent", "sym", "hard"] if k == "file" else ["self", "parent", "parent", "sym"])
         comps = src.split("/")
         def spell(cs, allow_link=True):
@@ -238,7 +253,7 @@ def family_alias_random(rnd, count):
                     # detour: into a sibling directory and back (".." is resolved by the kernel after links)
                     here = "/".join(cs[:j])
                     sib = {"dd": "e"}.get(here)
-                    if sib:
+                    if sib and any(e["p"] == ["dd", "e"] for e in fs):
                         outc += [sib, ".."]
                 outc.append(c)
             text = "/".join(outc)
@@ -713,7 +728,8 @@ def run_one(binary, sc, driver, run_id, names=None, strace=None, workers=None, e
     umask = sc.get("umask", 0o022)
     r = runner.run_xcp(binary, cli(sc, driver, names, root, workers), cwd=root, env=env, strace=st, timeout=timeout, umask=umask)
     after = fsmat.snapshot(root, names, contents)
-    obs = {"sc": model_record(sc), "driver": driver, "run": run_id, "umask": umask,
+    faulted = bool(env and env.get("XCP_VERIF_PLAN")) or any(("error=" in x or "signal=" in x) for x in ((strace or {}).get("inject") or []))
+    obs = {"sc": model_record(sc), "driver": driver, "run": run_id, "umask": umask, "faulted": faulted,
            "exit": (-9 if r.exit is None else r.exit) if not r.timed_out else -7,
            "before": observe(before), "after": observe(after)}
     obs["_run"] = {"stderr": r.stderr[-600:], "wall": r.wall, "timed_out": r.timed_out, "argv": [a.decode(errors="replace") for a in cli(sc, driver, names, root, workers)],
